@@ -724,3 +724,77 @@ Proof.
   - apply (close_tail_K _ _ _ _ _ _ H1 E).
 Qed.
 End Layers4.
+
+(* ------------------------------------------------------------------------------------------ *)
+(* Part D: Token::parse_request between two requests                                            *)
+(* ------------------------------------------------------------------------------------------ *)
+Section Between4.
+Variable norm : bytes -> bytes.
+Variable maxc : N.
+(* the segment of the next request, the segments after it *)
+Variables (ge gm : N) (bI : bytes) (LS1 : list seg).
+Hypothesis HbI : seg_ok bI.
+Hypothesis HLS1 : nonempty_segs LS1.
+
+(* g: the segment of the next request has been opened *)
+Definition nextsegs (g : bool) : list seg := if g then LS1 else (ge, gm, bI) :: LS1.
+
+Lemma nextsegs_ne g : nonempty_segs (nextsegs g).
+Proof. destruct g; [exact HLS1|]. constructor; [apply HbI|exact HLS1]. Qed.
+
+(* [cur]: what is left of the segment the parser is in (that of the request just closed, or, once opened, that of the
+   next request); the structure walk over the bytes held, the bytes read and the rest of that segment is complete *)
+Definition PK (g : bool) (p : parser) (new : bytes) (sg : list seg) : Prop :=
+  exists cur, sg = cur ++ nextsegs g /\ VS g (st p) (held p ++ new ++ flat cur) = true.
+
+(* a read happens only when the call just made is not done; if nothing of the current segment is left, the walk over
+   the bytes held is complete, which for a parser that is not done means it stands between two requests: the read opens
+   the segment of the next request, and never a later one *)
+Lemma parse_request_K : forall fuel g p new w s0 w',
+  parser_ok p -> bytes_ok new -> len new <= input_space p -> bytes_ok (remaining w) -> PK g p new (segs w) ->
+  parse_request norm maxc fuel p new w = Ok (inl s0) w' ->
+  exists g' p' rq, parser_ok p' /\ cap p' = cap p /\ st p' = Done rq /\ into_stream_parser p' = inl s0 /\
+                   PK g' p' [] (segs w') /\ bytes_ok (remaining w').
+Proof.
+  induction fuel as [|f IH]; intros g p new w s0 w' Hp Hn Hl Hrem (cur & Hsg & HV) E; [discriminate E|].
+  rewrite parse_request_iter in E.
+  destruct (F_parse_total norm maxc p new Hp Hn Hl) as (p' & d & o & EP & Hp' & Hcap & _).
+  destruct (parse_facts norm maxc p new Hp Hn Hl) as (p'' & d' & o' & EP' & _ & Hd & _).
+  rewrite EP in EP'. injection EP' as <- <- <-. rewrite EP in E.
+  pose proof (await_write_all_spec (io_fuel w (len o)) true o w) as WS1.
+  destruct (await_write_all (io_fuel w (len o)) true o w) as [[k|] w1|o1 w1]; [discriminate E| |discriminate E].
+  destruct WS1 as (Hsame & _).
+  assert (Hrem1 : bytes_ok (remaining w1)) by (rewrite (same_but_io_remaining _ _ Hsame); exact Hrem).
+  assert (Hsegs : segs w1 = segs w) by apply Hsame.
+  destruct d.
+  - destruct (into_stream_parser p') as [s|e] eqn:EI; [|discriminate E]. injection E as <- <-.
+    pose proof EI as EI'. unfold into_stream_parser in EI'.
+    destruct (st p') as [| | | | | | |rq|e] eqn:Est; try discriminate EI'.
+    exists g, p', rq. split; [exact Hp'|]. split; [exact Hcap|]. split; [exact Est|]. split; [exact EI|]. split; [|exact Hrem1].
+    exists cur. rewrite Hsegs. split; [exact Hsg|].
+    destruct (parse_vlaw norm maxc g p new p' true o Hp Hn Hl EP ltac:(rewrite Est; reflexivity)) as (LV & _).
+    cbn [app]. apply (LV (flat cur) HV).
+  - assert (Hnfin : is_final (st p') = false) by (symmetry; exact Hd).
+    assert (Hnfat : is_fatal (st p') = false) by (destruct (st p'); try reflexivity; discriminate Hd).
+    destruct (parse_vlaw norm maxc g p new p' false o Hp Hn Hl EP Hnfat) as (LV & SV). specialize (SV eq_refl).
+    destruct (LV (flat cur) HV) as [HV1 _].
+    pose proof (await_read_rem (io_fuel w1 0) true (input_space p') w1) as RM.
+    destruct (await_read (io_fuel w1 0) true (input_space p') w1) as [[b|k] w2|o2 w2] eqn:ER; [|discriminate E|discriminate E].
+    destruct b as [|x b]; [discriminate E|]. destruct RM as (R1 & R2 & R3 & R4 & _).
+    rewrite R3 in Hrem1. apply bytes_ok_app in Hrem1.
+    pose proof (await_read_rd _ _ _ _ _ _ ER) as RD. rewrite Hsegs, Hsg in RD.
+    pose proof (rd_split (nextsegs g) cur _ _ (nextsegs_ne g) RD) as SP. cbv beta iota in SP.
+    assert (STEP : exists g1, PK g1 p' (x :: b) (segs w2)).
+    { destruct SP as [(cur' & Es' & Ef)|(Ef & ge' & gm' & bb & rest & n & ELS & Hbb & Eb & Es')].
+      - exists g, cur'. split; [exact Es'|]. rewrite <- Ef. exact HV1.
+      - rewrite Ef, app_nil_r in HV1. pose proof (SV HV1) as Hm. destruct g.
+        + exfalso. pose proof (rvm_open true _ Hnfin Hm) as H. rewrite Hm in H. discriminate H.
+        + cbn [nextsegs] in ELS. injection ELS as <- <- <- <-.
+          exists true, [(ge, gm, drop n bI)]. split; [rewrite Es'; reflexivity|].
+          cbn [flat_map snd]. rewrite app_nil_r, Eb, take_drop.
+          unfold VS in *. rewrite (rvm_open false _ Hnfin Hm). rewrite Hm in HV1. apply (proj2 HbI). exact HV1. }
+    destruct STEP as (g1 & HPK).
+    destruct (IH g1 p' (x :: b) w2 s0 w' Hp' (proj1 Hrem1) R4 (proj2 Hrem1) HPK E) as (g' & p2 & rq & C1 & C2 & C3 & C4 & C5 & C6).
+    exists g', p2, rq. split; [exact C1|]. split; [congruence|]. repeat split; assumption.
+Qed.
+End Between4.
